@@ -230,4 +230,12 @@ def locatePrefix (d : D) (p : List Nat) : Option (Nat × Nat) :=
     | some l, some r => some (l, r)
     | _, _ => none
 
+/-- `StringDictionaryRPDAC::extractPrefix`: the string iterator with `processed = left − 1` (a `size_t`: it wraps to
+`2^64 − 1` for the limits `(0, 0)` of an empty result, so `hasNext` is false at once) and `scanneable = right`. -/
+def extractPrefix (d : D) (p : List Nat) : Option (List (List Nat)) :=
+  match locatePrefix d p with
+  | none => none
+  | some (left, right) =>
+    drain d right { processed := (left + 2 ^ 64 - 1) % 2 ^ 64, scanneable := right }
+
 end CSD.RPDAC
